@@ -517,3 +517,33 @@ def replay(path):
 def warm():
     C.build_harness('c14_hola', C.LIBS, FLAVOR)
     C.ocaml_build('c14', 'C14.v', 'c14_driver.ml', 'c14_model.ml')
+
+
+META = {
+    'property_id': PID,
+    'level_claimed': {
+        'category': 'other',
+        'text': 'The theorem covers the oracle and the padding arithmetic; the implementation is sampled. Proved in Coq, for all drawings and '
+                'all tolerance settings: the checker hola_ok is sound AND complete for the declaratively stated output conditions of doHOLA '
+                '(same node ids; same multiset of (source,target) edges; every node keeps its width and height; no two node rectangles have a '
+                'common interior point; every route has >= 2 points, only axis-parallel segments, starts and ends inside-or-on the end nodes\' '
+                'boxes inflated by the node padding (either orientation), and no segment contains a point strictly inside a third node; every '
+                'returned SepPair holds for the returned centres/sizes, with the C18 meaning SepPairModel.holds at tolerance 0); and the '
+                'node-padding arithmetic of hola.cpp:75-78/114/196-200/418-438 (inflate by nodePaddingScalar*IEL, deflate in layers 1/4 and '
+                '3/4) is the identity on widths and heights over Q for every node role, with the route-end tolerance padding_per_side derived '
+                'from the same formula. NOT proved: anything about the ~18 kLOC HOLA pipeline - no model of it exists; whether doHOLA meets '
+                'the conditions is decided only on sampled runs (random connected graphs of the named families and option settings + the inputs '
+                'of the 11 shipped hola_* tests), each judged by the extracted verified checker on the exact rational values of the dumped doubles.',
+        'design_ref': 'DESIGN.md 5.14'},
+    'level_note': 'Trusted: Coq kernel; extraction (ExtrOcamlBasic) and extract/c14_driver.ml; harness/c14_hola.cpp (reads Node/Edge/SepMatrix '
+                  'state, SepMatrix::m_sparseLookup via #define private public); Python glue (double -> exact Fraction -> hex rationals, case '
+                  'generation, known-finding classifiers which never accept a drawing, they only label a rejection). Tolerances: sizes 1e-6, overlap 1e-6, '
+                  'axis-parallel 1e-9 (measured library drift 3e-14), route ends padding_per_side + 1e-6, through-node 1e-6, separation 1e-6 '
+                  '(satisfied pairs are within 1e-11, violated ones off by > 0.1). The unchanged tree is NOT clean: seven root causes are '
+                  'registered in KNOWN_FINDINGS.txt with classifier predicates (tree centre-child alignment, tree rank collision, stale core '
+                  'constraints, chain bend unaligned, padded gap lost, and runtime_error / COLA_ASSERT / char* exceptions escaping doHOLA); a rejection '
+                  'outside those predicates is a VIOLATION. A source change is visible only through the sampled runs; a broken proof can only come '
+                  'from an edit of the Coq files and is then reported with no failing input. Multi-edges, self-loops and disconnected graphs '
+                  'are outside the generator domain, as in the property.',
+    'technique': 'Coq soundness+completeness proof of an output checker (verified oracle) + proved padding arithmetic; implementation sampled by running doHOLA',
+}
